@@ -574,6 +574,97 @@ pub fn tiny_ht(rng: &mut Rng, thorough: bool) -> ImgScenario {
     ImgScenario { ops, label: format!("tiny_ht ht={} rounds={} base={}", ht, rounds, nbase), cycle_ends: vec![] }
 }
 
+/// "after any recovered crash": histories in which one or two commits are cut inside sync (the
+/// handle is opened with panic_on_sync: before the manifest = the old state must come back, after
+/// the manifest = the WAL redo must produce the new one); the image is decoded after the recovery
+/// and again after a further commit.  Dense sub-tries are moved across the page-elision threshold
+/// inside the interrupted commit, in both directions, below pages that are already stored.
+pub fn crashes(rng: &mut Rng, thorough: bool) -> ImgScenario {
+    let mut ops = Vec::new();
+    let (mut sid, mut cid) = (0u32, 0u32);
+    let ht = *rng.pick(&[1024u32, 4096, 64000]);
+    let mut cfg = small_cfg(rng, ht);
+    cfg.rollback = rng.chance(1, 2);
+    cfg.max_len = *rng.pick(&[2u32, 100]);
+    cfg.prepop = false;
+    ops.push(Op::Open(cfg.clone()));
+    let mut kg = KeyGen::new(rng);
+    let mut live = Live::default();
+    let mut push = |ops: &mut Vec<Op>, live: &mut Live, mut batch: Vec<(Key, Acc)>| {
+        batch.sort_by(|a, b| a.0.cmp(&b.0));
+        batch.dedup_by(|a, b| a.0 == b.0);
+        live.apply(&batch);
+        sid += 1;
+        cid += 1;
+        ops.extend(commit_ops(sid, cid, batch, false));
+    };
+    // base population
+    for _ in 0..rng.range(1, 3) {
+        let sz = rng.range(5, if thorough { 300 } else { 80 }) as usize;
+        let b = gen_batch(rng, &mut kg, &live, &BatchSpec { size: sz, mix: ValueMix::Mixed, p_delete: 20, p_read: 0, p_rw: 30, p_existing: 40 });
+        push(&mut ops, &mut live, b);
+    }
+    // dense groups below pages of depth 1..3, some just under and some just over the threshold
+    let mut groups: Vec<(Vec<Key>, usize)> = Vec::new();
+    let mut b: Vec<(Key, Acc)> = Vec::new();
+    for _ in 0..rng.range(1, 4) {
+        let bits = *rng.pick(&[6usize, 12, 12, 18]);
+        let g = kg.dense(rng, bits, 30);
+        let n0 = if rng.chance(1, 2) { rng.range(14, 19) } else { rng.range(21, 28) } as usize;
+        b.extend(g[..n0].iter().map(|k| (*k, Acc::Write(Some(gen_value(rng, ValueMix::Small))))));
+        groups.push((g, n0));
+    }
+    push(&mut ops, &mut live, b);
+    let rounds = rng.range(1, if thorough { 4 } else { 2 });
+    for _ in 0..rounds {
+        let mode = if rng.chance(2, 3) { 2u8 } else { 1 };
+        ops.push(Op::Close);
+        let mut pc = cfg.clone();
+        pc.panic = mode;
+        ops.push(Op::Open(pc));
+        let sz = rng.range(0, 30) as usize;
+        let mut b = gen_batch(rng, &mut kg, &live, &BatchSpec { size: sz, mix: ValueMix::Mixed, p_delete: 30, p_read: 0, p_rw: 30, p_existing: 60 });
+        for (g, n) in groups.iter_mut() {
+            if rng.chance(1, 5) {
+                continue;
+            }
+            if *n <= 19 {
+                let n1 = rng.range(21, 30) as usize;
+                b.extend(g[*n..n1].iter().map(|k| (*k, Acc::Write(Some(gen_value(rng, ValueMix::Small))))));
+                if mode == 2 {
+                    *n = n1;
+                }
+            } else {
+                let n1 = rng.range(3, 18) as usize;
+                b.extend(g[n1..*n].iter().map(|k| (*k, Acc::Write(None))));
+                if mode == 2 {
+                    *n = n1;
+                }
+            }
+        }
+        if b.is_empty() {
+            b.push((rng.key(), Acc::Write(Some((3, 1)))));
+        }
+        b.sort_by(|a, b| a.0.cmp(&b.0));
+        b.dedup_by(|a, b| a.0 == b.0);
+        if mode == 2 {
+            live.apply(&b);
+        }
+        sid += 1;
+        cid += 1;
+        ops.extend(commit_ops(sid, cid, b, false));
+        ops.push(Op::Open(cfg.clone()));
+        // life goes on on the recovered store
+        let sz = rng.range(1, 25) as usize;
+        let b2 = gen_batch(rng, &mut kg, &live, &BatchSpec { size: sz, mix: ValueMix::Small, p_delete: 30, p_read: 0, p_rw: 30, p_existing: 70 });
+        live.apply(&b2);
+        sid += 1;
+        cid += 1;
+        ops.extend(commit_ops(sid, cid, b2, false));
+    }
+    ImgScenario { ops, label: format!("crashes ht={} rounds={} rb={}", ht, rounds, cfg.rollback as u8), cycle_ends: vec![] }
+}
+
 pub fn generate(prop: &str, rng: &mut Rng, thorough: bool) -> ImgScenario {
     match prop {
         "C19" => match rng.below(10) {
@@ -583,7 +674,8 @@ pub fn generate(prop: &str, rng: &mut Rng, thorough: bool) -> ImgScenario {
             8 => plain(scen::c10(rng, thorough)),
             _ => plain(scen::c09(rng, thorough)),
         },
-        _ => match rng.below(12) {
+        _ => match rng.below(16) {
+            12..=15 => crashes(rng, thorough),
             0..=1 => plain(scen::c01(rng, thorough)),
             2..=3 => plain(scen::c02(rng, thorough)),
             4 => plain(scen::c09(rng, thorough)),
